@@ -2,6 +2,7 @@ import PrimaiteModel.Model.Basic
 import PrimaiteModel.Model.Obs
 import PrimaiteModel.Model.ObsTruth
 import PrimaiteModel.Model.ObsConfig
+import PrimaiteModel.Model.ObsFlat
 open Primaite Primaite.Obs
 
 /-! Line-protocol driver for the observation model (C02 and C09).
@@ -365,6 +366,8 @@ partial def showSpace : Space → String
 
 structure St where
   o : Obs := .null
+  /-- the value of the latest `obs` / `spec` (what `gflat` flattens) and the object that produced it -/
+  last : Option (Space × Val) := none
 
 def run {α} (p : P α) (ws : List String) : Option α :=
   match p ws with
@@ -383,7 +386,14 @@ def step (s : St) : List String → St × String
   | ["default"] => (s, report s.o s.o.default)
   | "obs" :: ws =>
     match run pState ws with
-    | some st => ({ s with o := s.o.next st }, report s.o (s.o.val st))
+    | some st => ({ s with o := s.o.next st, last := some (s.o.space, s.o.val st) }, report s.o (s.o.val st))
+    | none => (s, "bad-op")
+  | ["gflat"] =>
+    match s.last with
+    | some (sp, v) =>
+      match gymFlatten sp v with
+      | some x => (s, String.join (x.map toString))
+      | none => (s, "raised")
     | none => (s, "bad-op")
   | "peek" :: ws =>
     match run pState ws with
@@ -393,7 +403,7 @@ def step (s : St) : List String → St × String
     match run pTruth ws with
     | some t =>
       let st := describe t
-      ({ s with o := s.o.next st },
+      ({ s with o := s.o.next st, last := some (s.o.space, s.o.val st) },
        showVal (s.o.spec t) ++ " | " ++ report s.o (s.o.val st))
     | none => (s, "bad-op")
   | "rawcfg" :: ws =>
